@@ -137,7 +137,7 @@ pub const TAG_POOL: &[&str] = &[
     "en", "EN", "en-US", "en-us", "fr-BE", "zh-Hant-TW", "x-foo", "de-1996", "En-gb",
     // singleton subtags (extensions, private use), grandfathered, long and numeric subtags
     "de-x-formal", "en-u-ca-gregory", "zh-t-en", "sr-Latn-RS-a-bcd", "en-a-b1", "i-klingon",
-    "es-419", "de-CH-1901", "a", "q-1", "abcdefgh-abcdefgh",
+    "es-419", "de-CH-1901", "abcdefgh-abcdefgh",
 ];
 
 pub const VAR_POOL: &[&str] = &["x", "y", "v1", "_z", "0"];
